@@ -24,8 +24,8 @@ func findOutputDeps(instrs []*instruction) {
 func findOutputDepsReg(ins *instruction, regs keyInsMap) {
 	for r := range ins.outRegs {
 		dep, ok := regs[r]
+		regs[r] = ins
 		if !ok {
-			regs[r] = ins
 			continue
 		}
 
